@@ -29,7 +29,9 @@ class SinkReader:
             # This is an empty sink file
             return sink
         else:
-            sink_data = np.atleast_2d(np.loadtxt(sink_file, delimiter=",", skiprows=2))
+            # ndmin=2 keeps one row per sink for a single sink as well as for a
+            # single column (atleast_2d would turn a column into a row)
+            sink_data = np.loadtxt(sink_file, delimiter=",", skiprows=2, ndmin=2)
 
         with open(sink_file, "r") as f:
             key_list = f.readline()
